@@ -1,0 +1,98 @@
+// Copyright 2020-2025 Buf Technologies, Inc.
+//
+// Licensed under the Apache License, Version 2.0 (the "License");
+// you may not use this file except in compliance with the License.
+// You may obtain a copy of the License at
+//
+//      http://www.apache.org/licenses/LICENSE-2.0
+//
+// Unless required by applicable law or agreed to in writing, software
+// distributed under the License is distributed on an "AS IS" BASIS,
+// WITHOUT WARRANTIES OR CONDITIONS OF ANY KIND, either express or implied.
+// See the License for the specific language governing permissions and
+// limitations under the License.
+
+
+//go:build verif
+
+package storagearchive
+
+// Contracts for the gocv verifier (see /verif/DESIGN.md). Comment-only.
+// Trusted archive/tar, klauspost zip and StripComponents contracts: /verif/specs/C14_buckets.spec.
+//
+// ---- C13: an archive entry name reaches a bucket only as a valid relative path other than "."
+//
+// The matcher is modelled as a deterministic predicate (`callback pure`).
+//@ func unmapArchivePath(archivePath, filePathMatcher, stripComponentCount) (r, ok, err)
+//@   property C13 C14
+//@   callback pure filePathMatcher
+//@   ensures valid: ok ==> err == nil && validRel(r) && r != "."
+//@   ensures derived: ok ==> r == first(normalpath.StripComponents(Normalize(archivePath), stripComponentCount))
+//@   ensures unstripped: ok && stripComponentCount == 0 ==> r == Normalize(archivePath)
+//@   ensures matched: ok && filePathMatcher != nil ==> filePathMatcher(r)
+//@   ensures accepted: archivePath != "" && validRel(Normalize(archivePath)) && Normalize(archivePath) != "." && second(normalpath.StripComponents(Normalize(archivePath), stripComponentCount)) && (filePathMatcher == nil || filePathMatcher(first(normalpath.StripComponents(Normalize(archivePath), stripComponentCount)))) ==> ok
+//@   ensures hostile-rejected: (err != nil) <==> (archivePath == "" || !validRel(Normalize(archivePath)))
+//@   ensures !ok ==> r == ""
+//@   canary ensures err != nil
+//@   canary ensures !ok
+//
+//@ pure func isAppleExtendedAttributesFile(fileInfo) (r)
+//@   property C14
+//@   ensures r == hasPrefix(fileInfo.Name(), "._")
+//
+//@ func newUntarOptions() (r)
+//@   property C14
+//@   ensures r != nil
+//@ func newUnzipOptions() (r)
+//@   property C14
+//@   ensures r != nil
+//
+// ---- C15: a failing sink is always reported
+//
+//@ func copyZipFile(ctx, writeBucket, zipFile, path) (retErr)
+//@   property C15
+//@   modifies ghost.fail, ghost.wfail, ghost.sinkPaths, ghost.sinkBuckets, ghost.lastPutOptions
+//@   ensures reported: ghost.fail && !old(ghost.fail) ==> retErr != nil
+//@   ensures write-reported: ghost.wfail && !old(ghost.wfail) ==> retErr != nil
+//@   canary ensures retErr == nil
+//
+// Untar/Unzip: every path handed to CopyReader/copyZipFile is a valid relative path other than "." (C13; the assertion
+// is anchored on the full call text, so a call with another path argument makes the contract out of date), and a
+// failed copy ends the extraction with an error (C15).
+//@ func Untar(ctx, reader, writeBucket, options) (err)
+//@   property C13 C15
+//@   modifies heap, ghost.fail, ghost.wfail, ghost.sinkPaths, ghost.sinkBuckets, ghost.lastPutOptions
+//@   assert before "if err := storage.CopyReader(ctx, writeBucket, tarReader, path);" entry-confined {C13}: validRel(path) && path != "."
+//@   ensures write-reported: ghost.wfail && !old(ghost.wfail) ==> err != nil
+//@   loop 1 invariant ghost.wfail ==> old(ghost.wfail)
+//@   canary ensures err != nil
+//
+//@ func Unzip(ctx, readerAt, size, writeBucket, options) (err)
+//@   property C13 C15
+//@   modifies heap, ghost.fail, ghost.wfail, ghost.sinkPaths, ghost.sinkBuckets, ghost.lastPutOptions
+//@   assert before "if err := copyZipFile(ctx, writeBucket, zipFile, path);" entry-confined {C13}: validRel(path) && path != "."
+//@   ensures reported: ghost.fail && !old(ghost.fail) ==> err != nil
+//@   ensures write-reported: ghost.wfail && !old(ghost.wfail) ==> err != nil
+//@   loop 1 invariant ghost.fail ==> old(ghost.fail)
+//@   loop 1 invariant ghost.wfail ==> old(ghost.wfail)
+//@   canary ensures err != nil
+//
+// Tar/Zip: the per-object callback reports every failure it raises, and the deferred Close of the archive writer
+// is joined into the result.
+//@ func Tar(ctx, readBucket, writer) (retErr)
+//@   property C15
+//@   modifies heap, ghost.fail, ghost.wfail, ghost.sinkPaths, ghost.sinkBuckets, ghost.lastPutOptions
+//@   ensures reported: ghost.fail && !old(ghost.fail) ==> retErr != nil
+//@   ensures write-reported: ghost.wfail && !old(ghost.wfail) ==> retErr != nil
+//@   closure 1 ensures entry-reports: ghost.fail && !old(ghost.fail) ==> err != nil
+//@   closure 1 ensures entry-reports-writes: ghost.wfail && !old(ghost.wfail) ==> err != nil
+//@   canary ensures retErr == nil
+//
+//@ func Zip(ctx, readBucket, writer, compressed) (retErr)
+//@   property C15
+//@   modifies heap, ghost.fail, ghost.wfail, ghost.sinkPaths, ghost.sinkBuckets, ghost.lastPutOptions
+//@   ensures reported: ghost.fail && !old(ghost.fail) ==> retErr != nil
+//@   ensures write-reported: ghost.wfail && !old(ghost.wfail) ==> retErr != nil
+//@   closure 1 ensures entry-reports: ghost.fail && !old(ghost.fail) ==> err != nil
+//@   closure 1 ensures entry-reports-writes: ghost.wfail && !old(ghost.wfail) ==> err != nil
+//@   canary ensures retErr == nil
